@@ -415,8 +415,56 @@ def ref_entry(fn) -> dict:
     names = local_names(fn)
     sites = [(n, k, _canon_with(v, {}, set())) for n, k, v in binding_sites(fn) if n in names]
     return {"locals": names, "sites": sites, "digest": digest(fn), "comps": [names_ for _, names_ in comp_sites(fn)],
-            "quants": quantifier_sites(fn), "params_read": params_read(fn), "calls": call_shapes(fn),
+            "quants": quantifier_sites(fn), "params_read": params_read(fn), "calls": call_shapes(fn), "call_args": call_args(fn), "stmts": stmt_sequence(fn),
             "params": [x.arg for x in fn.args.posonlyargs + fn.args.args + fn.args.kwonlyargs]}
+
+
+def call_args(fn) -> list:
+    """[callee text, [canonical positional arguments]] for calls with 2..6 plain positional arguments, in source order"""
+    from . import sym
+    out = []
+    for n in _own_scope_walk_all(fn):
+        if isinstance(n, ast.Call) and 2 <= len(n.args) <= 6 and not any(isinstance(a, ast.Starred) for a in n.args):
+            try:
+                callee = ast.unparse(n.func)
+                if len(callee) > 80:
+                    continue
+                out.append([callee, [sym.canon(a)[:120] for a in n.args]])
+            except Exception:
+                continue
+    return out
+
+
+def stmt_sequence(fn) -> list:
+    """canonical text, names written and names read of every simple statement of the function's main line (comparison normal form), in order"""
+    from .astutil import linear_body
+    out = []
+    for st in linear_body(fn):
+        if isinstance(st, (ast.Assign, ast.AugAssign, ast.AnnAssign, ast.Expr)) and not (isinstance(st, ast.Expr) and isinstance(st.value, ast.Constant)):
+            try:
+                text = ast.unparse(st)
+            except Exception:
+                continue
+            writes, reads = set(), set()
+            for x in ast.walk(st):
+                if isinstance(x, (ast.Name, ast.Attribute)):
+                    try:
+                        t = ast.unparse(x)
+                    except Exception:
+                        continue
+                    if isinstance(getattr(x, "ctx", None), (ast.Store, ast.Del)):
+                        writes.add(t)
+                    else:
+                        reads.add(t)
+            if isinstance(st, ast.AugAssign):
+                reads.add(ast.unparse(st.target))
+            for x in ast.walk(st):      # a store into a[i] / a.b writes `a`'s content
+                if isinstance(x, ast.Subscript) and isinstance(x.ctx, ast.Store):
+                    writes.add(ast.unparse(x.value))
+            # method calls on an object may change it: x.append(..), self._file.seek(..)
+            calls_on = {ast.unparse(c.func.value) for c in ast.walk(st) if isinstance(c, ast.Call) and isinstance(c.func, ast.Attribute)}
+            out.append([text[:200], sorted(writes), sorted(reads), sorted(calls_on)])
+    return out
 
 
 def call_shapes(fn) -> list:
